@@ -244,4 +244,6 @@ def run(repo, tier):
     res.exhaustive_rules = ['A1 over all public entry points x parameters']
     from .common import run_no_overwrite_input
     run_no_overwrite_input(repo, res, {m for m in repo.modules if '.tests' not in m})
+    from .common import run_generic_pack
+    run_generic_pack(repo, res, PROP, ())
     return res
